@@ -342,9 +342,9 @@ func TestVerifC14Server(t *testing.T) {
 	var wg sync.WaitGroup
 	var mu sync.Mutex
 	type outcome struct {
-		p            probe
-		sig, detail  string
-		nontrivial   bool
+		p           probe
+		sig, detail string
+		nontrivial  bool
 	}
 	var outs []outcome
 	for i, p := range probes {
